@@ -63,7 +63,12 @@ func (s *Solver) Pop() {
 }
 
 
-var solverBin = "/usr/bin/z3"
+var solverBin = func() string {
+	if b := os.Getenv("SYMGO_SOLVER"); b != "" {
+		return b
+	}
+	return "/usr/bin/z3"
+}()
 var slowLogDir = os.Getenv("SYMGO_SLOWLOG")
 var slowN int64
 var dumpStdin = func() *os.File {
